@@ -216,7 +216,10 @@ func (sta *State) UsedRandomCleaner() {
 		time.Sleep(replayCacheAgeLimit)
 		sta.usedRandomM.Lock()
 		for key, t := range sta.UsedRandom {
-			if time.Unix(t, 0).Before(sta.WorldState.Now().Add(timestampTolerance)) {
+			// an entry registered at t belongs to a packet whose timestamp is within timestampTolerance
+			// of t, and that packet stays acceptable until its timestamp is timestampTolerance in the
+			// past: the entry may only be dropped once 2*timestampTolerance have passed since t
+			if time.Unix(t, 0).Before(sta.WorldState.Now().Add(-2 * timestampTolerance)) {
 				delete(sta.UsedRandom, key)
 			}
 		}
